@@ -122,6 +122,10 @@ let ext_warning_sexp (w : M.External.ext_warning) = match w with
   | WInvalidRoleWithinUserGuide a -> L [ S "InvalidRoleWithinUserGuide"; of_annot a ]
   | WDefinitionWithWarning w -> L (S "DefinitionWithWarning" :: po_warning_items w)
 let ext_warnings_sexp ws = L (A "warnings" :: List.map ext_warning_sexp ws)
+(* the variant name alone: ops that read the warnings off the text the CLI prints (cli_verify) know the kind only *)
+let ext_warning_name (w : M.External.ext_warning) = match w with
+  | WNonTightProgram _ -> "NonTightProgram" | WInconsistentDirectionAnnotation _ -> "InconsistentDirectionAnnotation"
+  | WInvalidRoleWithinUserGuide _ -> "InvalidRoleWithinUserGuide" | WDefinitionWithWarning _ -> "DefinitionWithWarning"
 
 let ext_task = function
   | L [ A "external"; sp; p; ug; po; dec; dir; r; bypass; simplify; brk ] ->
